@@ -46,7 +46,7 @@ var hrefPool = []string{"http://example.com/", "https://a.b/c", "//cdn.x/y", "/l
 	" //padded.example/", "  //padded.example/x ", "\t//tab.example/", "/\t/tab.example/", "//new\nline.example/", " /local ", "\n//nl.example/",
 	// forms in which only a browser finds a host
 	"http:/evil.example", "https:evil.example/x", "https:\\\\evil.example", "///evil.example/", "/\\evil.example", "\\\\evil.example/p", "\\/evil.example", "HTTP:\\evil.example", "/%2F/evil.example/^", "ftp:/files.example/", "/\\/evil.example", "x-app:/local", "mailto:/x", "file:\\\\files.example\\x", "file:///local/x", "FILE:\\/files.example/x"}
-var targetPool = []string{"_blank", "_self", "foo", "_BLANK", "", "_blank ", "_top", "_Blank", "x\n<", "a\t<b", "_blan\u212a", "x\ny"}
+var targetPool = []string{"_blank", "_self", "foo", "_BLANK", "", "_blank ", "_top", "_Blank", "x\n<", "a\t<b", "_blan\u212a", "x\ny", "ab\n<cd", "_bl\t<k", "<\rabcd", "_blan\n<"}
 
 func genC11(t *rapid.T) *Case {
 	nr := func(o Op) Op {
@@ -317,6 +317,11 @@ func genC12(t *rapid.T) *Case {
 	spec := genSpec(t, &SpecOpts{MaxOps: 6})
 	els := []string{"img", "audio", "video", "link", "iframe", "script", "image"}
 	spec.Ops = append(spec.Ops, Op{Kind: "AllowAttrs", Attrs: []string{"src", "href", "crossorigin", "sandbox", "id"}, ValRe: -1, Scope: "els", Names: els})
+	if rapid.IntRange(0, 3).Draw(t, "forcedGlobal") == 0 {
+		// crossorigin and sandbox admitted by a global rule only
+		spec.Ops[len(spec.Ops)-1].Attrs = []string{"src", "href", "id"}
+		spec.Ops = append(spec.Ops, Op{Kind: "AllowAttrs", Attrs: []string{"crossorigin", "sandbox"}, ValRe: -1, Scope: "global"})
+	}
 	if rapid.IntRange(0, 2).Draw(t, "linkOpt") == 0 {
 		// link is also one of the elements the rel / target hardening works on: the two passes over
 		// the same attribute list must not get in each other's way
